@@ -13,6 +13,8 @@ inductive Edit
   | addWavs (paths : List Bytes)
   /-- `RichChkEditor.replace_chk_section` with a hand-built `RichUprpSection` -/
   | replaceUprp (cs : List RCuwp)
+  /-- `RichChkEditor.replace_chk_section` with a hand-built `RichMrgnSection` -/
+  | replaceMrgn (ls : List RLoc)
   /-- save to bytes and load again -/
   | reload
   deriving Repr
@@ -25,6 +27,7 @@ def isTrig : RSection → Bool | .trig _ => true | _ => false
 def isUnis : RSection → Bool | .unis _ _ => true | _ => false
 def isWav : RSection → Bool | .wav _ => true | _ => false
 def isUprp : RSection → Bool | .uprp _ => true | _ => false
+def isMrgn : RSection → Bool | .mrgn _ => true | _ => false
 
 /-- `RichTrigEditor.add_triggers`: new triggers go after the existing ones -/
 def addTriggers (new : List RTrigger) (secs : List RSection) : R (List RSection) :=
@@ -79,6 +82,7 @@ def applyEdit (cfg : RichCfg) (encTable : SecTable) (secs : List RSection) : Edi
   | .upsertUnit u => upsertUnit u secs
   | .addWavs ps => addWavs cfg ps secs
   | .replaceUprp cs => .ok (replaceSections isUprp (.uprp cs) secs)
+  | .replaceMrgn ls => .ok (replaceSections isMrgn (.mrgn ls) secs)
   | .reload => match saveBytes cfg encTable secs with
     | .error e => .error e
     | .ok bs => loadBytes cfg bs
